@@ -53,6 +53,23 @@ fn fuzz_campaign(rep: &mut Report, tier: &str, target: &str, runs: u64, max_len:
     }
 }
 
+/// Systematic part of the schedule checks: for a few fixed small programs, EVERY schedule with at most one (quick) or
+/// two (thorough) pre-emptions, over every base order of the actors.
+fn enumerate_into(rep: &mut Report, tier: &str, id: &'static str, fl: skv_verif::engine_sched::Flavor, findings: &Findings) {
+    use skv_verif::engine_sched::{enumerate_schedules, enumeration_programs, sched_prop};
+    let def = sched_prop(id, fl);
+    let max_preempt = if tier == "thorough" { 2 } else { 1 };
+    let mut summary = Vec::new();
+    for (name, template, horizon) in enumeration_programs(fl) {
+        let cases = enumerate_schedules(&template, max_preempt, horizon);
+        let n = cases.len();
+        let r = skv_verif::runner::run_list(&def, cases, findings);
+        summary.push(serde_json::json!({"program": name, "schedules_enumerated": n, "schedules_run": r.evaluations, "max_preemptions": max_preempt, "decision_horizon": horizon, "complete": r.evaluations as usize == n}));
+        rep.merge(r);
+    }
+    rep.extra.insert("systematic_enumeration".into(), serde_json::json!(summary));
+}
+
 fn run_model<C>(defs: Vec<(PropDef<C>, u64, u64)>, tier: &str, replay: Option<PathBuf>) -> i32
 where
     C: Clone + std::fmt::Debug + serde::Serialize + serde::de::DeserializeOwned + Send + 'static,
@@ -201,7 +218,8 @@ fn main() {
             run_replays(&sched, &findings, &mut rep);
             rep.merge(run_prop(&main, cases_for(tier, 20000, 400000), seed, 0, &findings));
             rep.merge(run_prop(&sched, cases_for(tier, 4000, 80000), seed, 1, &findings));
-            let rule = format!("{} || SECOND STREAM ({})", main.rule, sched.rule);
+            enumerate_into(&mut rep, tier, "C01", Flavor::C01, &findings);
+            let rule = format!("{} || SECOND STREAM ({}) || SYSTEMATIC PART: coverage.systematic_enumeration", main.rule, sched.rule);
             finish(main.id, main.level, tier, seed, &rule, &main.assumptions, &rep, t0.elapsed().as_secs_f64(), &findings)
         }
         "C02" => {
@@ -254,12 +272,25 @@ fn main() {
             run_replays(&main, &findings, &mut rep);
             rep.merge(run_prop(&main, cases_for(tier, 2500, 50000), seed, 0, &findings));
             rep.merge(run_prop(&orc, cases_for(tier, 40000, 800000), seed, 1, &findings));
+            enumerate_into(&mut rep, tier, "C04", Flavor::C04, &findings);
             let rule = format!("{} || SECOND STREAM ({})", main.rule, orc.rule);
             finish(main.id, main.level, tier, seed, &rule, &main.assumptions, &rep, t0.elapsed().as_secs_f64(), &findings)
         }
         "C05" => {
             use skv_verif::engine_sched::{sched_prop, Flavor};
-            run_model(vec![(sched_prop("C05", Flavor::C05), 2500, 50000)], tier, replay)
+            let findings = Findings::load();
+            let main = sched_prop("C05", Flavor::C05);
+            if let Some(p) = replay {
+                std::process::exit(replay_one(&main, &p, &findings));
+            }
+            let seed = seed_from_env();
+            let t0 = Instant::now();
+            let mut rep = Report::default();
+            run_replays(&main, &findings, &mut rep);
+            rep.merge(run_prop(&main, cases_for(tier, 2500, 50000), seed, 0, &findings));
+            enumerate_into(&mut rep, tier, "C05", Flavor::C05, &findings);
+            let rule = format!("{} || SYSTEMATIC PART: for fixed small programs (coverage.systematic_enumeration) every schedule with at most 1 (quick) / 2 (thorough) pre-emptions over every base order of the actors, same oracle.", main.rule);
+            finish(main.id, main.level, tier, seed, &rule, &main.assumptions, &rep, t0.elapsed().as_secs_f64(), &findings)
         }
         "C17" => {
             use skv_verif::engine_sched::{sched_prop, Flavor};
